@@ -44,23 +44,68 @@ pub fn uuid() -> impl Strategy<Value = [u8; 16]> {
     ]
 }
 
+/// Bytes that coincide with something structural: frame constants, message
+/// types, command codes, flag bytes.
+const STRUCTURAL: [u8; 16] = [0x00, 0x0F, 0x01, 0xFF, 0x7E, 0x7F, 0x05, 0x06, 0xC8, 0x80, 0x02, 0x0E, 0x10, 0x0A, 0x1F, 0x81];
+
+/// Give a random byte vector *content* that coincides with something
+/// structural (the length is never changed): a constant fill, bytes from the
+/// frame's own constants, a payload that ends with the CRC-8 of what precedes
+/// it (so the packet's last payload byte is a valid PEC of a prefix), a payload
+/// whose CRC-8 is zero, an ascending run, or a complete valid packet embedded at
+/// the start.  Ten cases in sixteen stay uniformly random.
+pub fn shape_content(mut v: Vec<u8>, mode: u8, aux: u8) -> Vec<u8> {
+    let n = v.len();
+    match mode & 15 {
+        10 => v.iter_mut().for_each(|b| *b = aux),
+        11 => v.iter_mut().for_each(|b| *b = STRUCTURAL[(*b & 15) as usize]),
+        12 => {
+            if n >= 2 {
+                v[n - 1] = crate::crc::crc8(&v[..n - 1]);
+            }
+        }
+        13 => v.iter_mut().enumerate().for_each(|(i, b)| *b = aux.wrapping_add(i as u8)),
+        14 => {
+            let inner = refmodel::build_control_request(aux & 0x7F, 0x10, aux, 0x10, 0, 0x02, &[]);
+            for (d, s) in v.iter_mut().zip(inner.iter()) {
+                *d = *s;
+            }
+        }
+        15 => {
+            // all zero but for one structural byte somewhere
+            v.iter_mut().for_each(|b| *b = 0);
+            if n > 0 {
+                v[(aux as usize * n) >> 8] = STRUCTURAL[(aux & 15) as usize];
+            }
+        }
+        _ => {}
+    }
+    v
+}
+
+fn shaped(s: BoxedStrategy<Vec<u8>>) -> BoxedStrategy<Vec<u8>> {
+    (s, any::<u8>(), any::<u8>()).prop_map(|(v, mode, aux)| shape_content(v, mode, aux)).boxed()
+}
+
 /// Byte vectors with lengths weighted to small values and to `max`.
 pub fn bytes_upto(max: usize) -> BoxedStrategy<Vec<u8>> {
     let small = max.min(4);
     let mid = max.min(40);
     let hi_lo = max.saturating_sub(3);
-    prop_oneof![
-        3 => vec(any::<u8>(), 0..=small),
-        3 => vec(any::<u8>(), 0..=mid),
-        2 => vec(any::<u8>(), 0..=max),
-        2 => vec(any::<u8>(), hi_lo..=max),
-    ]
-    .boxed()
+    shaped(
+        prop_oneof![
+            3 => vec(any::<u8>(), 0..=small),
+            3 => vec(any::<u8>(), 0..=mid),
+            2 => vec(any::<u8>(), 0..=max),
+            2 => vec(any::<u8>(), hi_lo..=max),
+        ]
+        .boxed(),
+    )
 }
 
 /// Byte vectors of length in [lo, hi].
 pub fn bytes_between(lo: usize, hi: usize) -> BoxedStrategy<Vec<u8>> {
-    vec(any::<u8>(), lo..=hi).boxed()
+    shaped(vec(any::<u8>(), lo..=hi).boxed())
 }
 
 pub fn half() -> impl Strategy<Value = Half> {
@@ -102,6 +147,36 @@ pub fn pci_or_iana_data() -> impl Strategy<Value = u32> {
     ]
 }
 
+/// A *plausible* routing table: entries built with the typed constructor's
+/// value ranges (entry type 0-3, reserved bits clear) whose neighbours are
+/// related the way real tables are - same bridge address, contiguous /
+/// overlapping / touching EID ranges, equal types - rather than four
+/// independent bytes.
+pub fn routing_table() -> BoxedStrategy<Vec<[u8; 4]>> {
+    (
+        (0u8..4, prop_oneof![3 => 1u8..=16, 1 => any::<u8>()], any::<u8>(), any::<u8>()),
+        vec((0u8..8, 0u8..6, prop_oneof![3 => 1u8..=16, 1 => any::<u8>()], 0u8..4, any::<u8>()), 0..=6),
+    )
+        .prop_map(|((t0, size0, first0, phys0), steps)| {
+            let mut out: Vec<[u8; 4]> = vec![[t0, size0, first0, phys0]];
+            for (tsel, rel, size, psel, r) in steps {
+                let p = *out.last().unwrap();
+                let ty = if tsel < 6 { p[0] } else { r & 3 };
+                let first = match rel {
+                    0 | 1 => p[2].wrapping_add(p[1]),            // continues the previous range
+                    2 => p[2].wrapping_add(p[1]).wrapping_add(1), // one EID gap
+                    3 => p[2],                                    // same start
+                    4 => p[2].wrapping_sub(size),                 // ends where the previous begins
+                    _ => r,
+                };
+                let phys = if psel < 3 { p[3] } else { r.rotate_left(3) };
+                out.push([ty, size, first, phys]);
+            }
+            out
+        })
+        .boxed()
+}
+
 /// The 17 control request encoders.
 pub fn req_call(include_invalid: bool) -> BoxedStrategy<EncCall> {
     use EncCall::*;
@@ -119,6 +194,7 @@ pub fn req_call(include_invalid: bool) -> BoxedStrategy<EncCall> {
                 3 => vec(proptest::array::uniform4(any::<u8>()), 0..=7),
                 1 => vec(proptest::array::uniform4(any::<u8>()), 7..=7),
                 1 => vec(proptest::array::uniform4(any::<u8>()), 0..=max_entries),
+                3 => routing_table(),
             ].prop_map(|mut entries: Vec<[u8; 4]>| {
                 // now and then two neighbouring entries are identical
                 if entries.len() >= 2 && entries[0][0] & 3 == 0 {
@@ -151,7 +227,7 @@ pub fn vendor_format(include_invalid: bool) -> BoxedStrategy<u8> {
 pub fn vendor_call(include_invalid: bool, over: bool) -> BoxedStrategy<EncCall> {
     // PCI: body = 2 + msg <= 249 ; IANA: 4 + msg <= 249
     let max = if over { 300 } else { 245 };
-    (vendor_format(include_invalid), pci_or_iana_data(), any::<u16>(), bytes_upto(max))
+    (vendor_format(include_invalid), pci_or_iana_data(), special_u16(), bytes_upto(max))
         .prop_map(move |(format, data, numeric, mut msg)| {
             // relation between two arguments: one message in eight begins with
             // the very bytes of the vendor ID header
@@ -202,14 +278,45 @@ pub fn cc_any() -> impl Strategy<Value = u8> {
 
 pub fn msg_type_list(include_invalid: bool) -> BoxedStrategy<Vec<u8>> {
     let hi = if include_invalid { 64usize } else { 30 };
-    prop_oneof![
-        2 => Just(Vec::new()),
-        2 => vec(any::<u8>(), 1..=1),
-        4 => vec(any::<u8>(), 0..=30),
-        2 => vec(any::<u8>(), 29..=30),
-        1 => vec(any::<u8>(), 30..=hi),
-    ]
-    .boxed()
+    (
+        prop_oneof![
+            2 => Just(Vec::new()),
+            2 => vec(any::<u8>(), 1..=1),
+            4 => vec(any::<u8>(), 0..=30),
+            2 => vec(any::<u8>(), 29..=30),
+            1 => vec(any::<u8>(), 30..=hi),
+        ],
+        0u8..12,
+        any::<u8>(),
+    )
+        .prop_map(|(mut v, mode, aux)| {
+            // configuration *values*: sorted / reversed lists, duplicates, the
+            // supported type codes themselves, 0x00 somewhere
+            let n = v.len();
+            match mode {
+                0 => v.sort(),
+                1 => {
+                    v.sort();
+                    v.reverse();
+                }
+                2 => {
+                    if n >= 2 {
+                        let i = (aux as usize * (n - 1)) >> 8;
+                        v[i + 1] = v[i];
+                    }
+                }
+                3 => v.iter_mut().for_each(|b| *b = [0x00, 0x05, 0x06, 0x7E, 0x7F, 0x01][(*b % 6) as usize]),
+                4 => v.iter_mut().for_each(|b| *b = aux),
+                5 => {
+                    if n > 0 {
+                        v[(aux as usize * n) >> 8] = 0x00;
+                    }
+                }
+                _ => {}
+            }
+            v
+        })
+        .boxed()
 }
 
 pub fn resp_call(include_invalid: bool) -> BoxedStrategy<EncCall> {
@@ -293,22 +400,50 @@ pub fn enc_env(dest: BoxedStrategy<u8>) -> BoxedStrategy<EncEnv> {
         .boxed()
 }
 
+/// 16-bit values with the special ones (zero, all ones, one zero byte) weighted up.
+pub fn special_u16() -> impl Strategy<Value = u16> {
+    prop_oneof![
+        8 => any::<u16>(),
+        2 => Just(0x0000u16),
+        1 => Just(0xFFFFu16),
+        1 => 1u16..=0xFF,
+        1 => (1u16..=0xFF).prop_map(|x| x << 8),
+        1 => Just(0x0001u16),
+    ]
+}
+
 pub fn vendor_set() -> impl Strategy<Value = (u8, u32, u16)> {
     prop_oneof![
-        1 => (Just(0u8), 0u32..=0xFFFF, any::<u16>()),
-        1 => (Just(1u8), pci_or_iana_data(), any::<u16>()),
+        4 => (Just(0u8), 0u32..=0xFFFF, special_u16()),
+        1 => (Just(0u8), special_u16().prop_map(|x| x as u32), special_u16()),
+        4 => (Just(1u8), pci_or_iana_data(), special_u16()),
+        1 => (Just(1u8), prop_oneof![Just(0u32), (0u32..4, 1u32..=0xFF).prop_map(|(k, b)| b << (8 * k)), special_u16().prop_map(|x| x as u32)], special_u16()),
     ]
 }
 
 /// Vendor set lists of 1-16 entries; one list in four contains an exact
-/// duplicate of one of its entries at another position.
+/// duplicate of one of its entries at another position, and one in eight
+/// begins or ends with all-zero sets (a zero-padded static table).
 fn vendor_sets() -> BoxedStrategy<Vec<(u8, u32, u16)>> {
-    (prop_oneof![2 => vec(vendor_set(), 1..=1), 3 => vec(vendor_set(), 1..=16)], any::<u16>(), any::<u16>(), 0u8..4)
-        .prop_map(|(mut v, a, b, dup)| {
+    (prop_oneof![2 => vec(vendor_set(), 1..=1), 3 => vec(vendor_set(), 1..=16)], any::<u16>(), any::<u16>(), 0u8..4, 0u8..16)
+        .prop_map(|(mut v, a, b, dup, zero)| {
             if dup == 0 && v.len() >= 2 {
                 let i = (a as usize * v.len()) >> 16;
                 let j = (b as usize * v.len()) >> 16;
                 v[j] = v[i];
+            }
+            let n = v.len();
+            match zero {
+                0 => v[n - 1] = (0, 0, 0),
+                1 => {
+                    v[n - 1] = (0, 0, 0);
+                    if n >= 3 {
+                        v[n - 2] = (0, 0, 0);
+                    }
+                }
+                2 => v[0] = (0, 0, 0),
+                3 => v[n - 1] = (1, 0, 0),
+                _ => {}
             }
             v
         })
